@@ -316,6 +316,50 @@ func runC20(c *Ctx) {
 		c.obF("R20.3", f, "converts-options", conv == 1, "the common UI options are converted for the UI flavour", fmt.Sprintf("%d conversions", conv))
 	}
 
+	// the SpecURL the page references is the configured one, verbatim: it is only ever set from an option argument,
+	// copied from another options struct, or defaulted (a constant, only when it is empty)
+	nSU := 0
+	for _, fn := range p.LibFuncs("rt/middleware") {
+		for _, in := range ownInstrs(fn) {
+			st, ok := in.(*ssa.Store)
+			if !ok {
+				continue
+			}
+			_, _, immT, field := chainRoot(st.Addr)
+			if immT == nil || field != "SpecURL" {
+				continue
+			}
+			nSU++
+			okV, bad := allOrigins(st.Val, oConstString(), func(o Origin) bool { _, isP := o.V.(*ssa.Parameter); return isP }, func(o Origin) bool {
+				ld, isLd := derefLoad(o.V)
+				if !isLd {
+					return false
+				}
+				_, _, t2, f2 := chainRoot(ld)
+				return t2 != nil && f2 == "SpecURL"
+			})
+			why := "origin " + describeOrigin(bad)
+			if okV {
+				if _, isK := constString(st.Val); isK {
+					fa, _ := st.Addr.(*ssa.FieldAddr)
+					isThis := func(v ssa.Value) bool {
+						ad, isLd := derefLoad(v)
+						if !isLd {
+							return false
+						}
+						fb, isFA := ad.(*ssa.FieldAddr)
+						return isFA && fa != nil && fb.Field == fa.Field && fb.X == fa.X
+					}
+					if !guardedBy(st, nil, factEqString(isThis, "", true)) {
+						okV, why = false, "a constant replaces a configured SpecURL"
+					}
+				}
+			}
+			c.obI("R20.3", st, "SpecURL-verbatim", okV, "the SpecURL referenced by the page is the configured value, verbatim (it is never rewritten: the spec route is derived from the very same string)", why)
+		}
+	}
+	c.obF("R20.3", p.Fn("(*rt/middleware.uiOptions).EnsureDefaults"), "SpecURL-writers", nSU >= 2, "writers of SpecURL found (option setter and default)", fmt.Sprintf("%d", nSU))
+
 	// R20.4 template fields exist
 	mw := p.TypesPkg("rt/middleware")
 	for _, t := range []struct{ constName, optsT string }{
